@@ -15,6 +15,11 @@ chk("C16","model_checking",
     "Trusted: the hand-transcribed tables (14496-12 box names, 14496-3 Tables 1.17-1.19, 14496-10 Annex A), rustc, the harness loops. The accepted spellings of non-ASCII four-character strings are not prescribed (only that accepted text prints back identically).",
     "exhaustive enumeration of complete finite domains on the real code (explicit-state, no abstraction)","§3 C16")
 
+chk("C01","model_checking",
+    "Every history of write_sample calls up to the stated depth over alphabets that hold one value per shortcut of the muxer's table builders (sizes 0/1/2, durations 0/half/T/T+1, offsets 0/+/-, sync on/off, rejected track ids, every media kind alone and in ordered pairs, a timescale grid, one-hot extremes) is muxed by the real writer, read back by the real reader and compared with a list-of-samples reference model; within the bound the enumeration is complete.",
+    "Bounded: histories longer than the depth, or values outside the alphabets, are not covered. Decoder = the library's own reader (C02 adds an independent parser). Trusted: harness reference model (a Vec per track).",
+    "exhaustive enumeration of operation histories (depth-bounded) on the real muxer+reader against a reference model","§3 C01")
+
 NA={}
 m={"version":1,
    "setup_cmd":"cd harness && CARGO_NET_OFFLINE=true cargo build --offline --release && CARGO_NET_OFFLINE=true cargo build --offline --profile wrapping",
